@@ -67,9 +67,9 @@ def select(ds, quick, seed):
     by = collections.defaultdict(list)
     for c in ds:
         by[c["cls"]].append(c)
-    cap = {"truncate": 150, "brokenUtf8": 70, "illegalChar": 60, "loneSurrogate": 50, "fffe": 50, "nul": 40, "numberLiteral": 150, "cdataBracket": 90,
-           "numberFormat": 60, "numberValue": 50, "dropTag": 40, "dupTag": 40, "swapTag": 40, "unclosedQuote": 35, "unknownXslAttribute": 25,
-           "nonExpression": 110}
+    cap = {"truncate": 100, "brokenUtf8": 40, "illegalChar": 35, "loneSurrogate": 30, "fffe": 30, "nul": 20, "numberLiteral": 70, "cdataBracket": 60,
+           "numberFormat": 30, "numberValue": 30, "dropTag": 25, "dupTag": 25, "swapTag": 25, "unclosedQuote": 20, "unknownXslAttribute": 15,
+           "nonExpression": 80}
     out = []
     for cls in sorted(by):
         lst = by[cls]
@@ -116,15 +116,20 @@ def build_inputs(ds, quick, seed, stats):
             if "\x00" in text or any(ord(ch) < 0x20 or 0xD800 <= ord(ch) < 0xE000 or ord(ch) in (0xFFFE, 0xFFFF) for ch in text):
                 continue       # would no longer be a well-formed stylesheet: another class
             items.append({"cls": c["cls"], "role": "xsl", "d": c["d"], "in": add(c03gen.in_stylesheet(text)), "nodeset": False, "desc": c, "embedded": True})
-    nf = 400 if quick else 6000
+    nf = 250 if quick else 6000
     for k, (role, b) in enumerate(c03gen.fuzz_inputs(seed, nf)):
         items.append({"cls": "fuzz", "role": role, "d": 0, "in": add(b), "nodeset": True, "desc": {"cls": "fuzz", "k": k, "seed": seed}})
     return inputs, items, fixed
 
 
+QUICK_DEEPEST = {("deepDocument", "elements"), ("deepParens", "parens"), ("deepSteps", "child"), ("deepTemplateBody", "lre"), ("deepPredicates", "chained")}
+BATCH = 25
+
+
 def plan(items, quick, seed):
     """one execution per (item, scenario).  thorough: every scenario of the role; quick: the first items of every class go through
-    every scenario, the others through three scenarios chosen round-robin (so that all scenarios are used equally)."""
+    every scenario, the others through three scenarios chosen round-robin (so that all scenarios are used equally); depth 100000
+    only for one variant per class and depth >= 10000 through two scenarios each."""
     cases, seen_cls = [], collections.Counter()
     rr = collections.Counter()
     for it in items:
@@ -134,8 +139,11 @@ def plan(items, quick, seed):
         if it.get("embedded"):
             scen = [("T", "stream"), ("T", "prebuilt"), ("T", "capiData")]
         big = it["d"] >= 10000
-        full = (not quick) or (seen_cls[(it["cls"], it["role"], bool(it.get("embedded")))] < 2 and not big)
-        seen_cls[(it["cls"], it["role"], bool(it.get("embedded")))] += 1
+        if quick and it["d"] >= 100000 and (it["cls"], it["desc"].get("v")) not in QUICK_DEEPEST:
+            continue
+        ck = (it["cls"], it["role"], bool(it.get("embedded")))
+        full = (not quick) or (seen_cls[ck] < 2 and not big)
+        seen_cls[ck] += 1
         if not full:
             k = 2 if big else 3
             start = rr[it["role"]]
@@ -143,16 +151,16 @@ def plan(items, quick, seed):
             scen = [scen[(start + j) % len(scen)] for j in range(min(k, len(scen)))]
         for grp, s in scen:
             cases.append({"grp": grp, "scen": s, "role": it["role"], "cls": it["cls"], "d": it["d"], "in": it["in"],
-                          "timeout": 120 if it["d"] >= 10000 else 60, "item": it})
-    # children are per group: keep the groups in long runs, big inputs last (their children are slow)
-    cases.sort(key=lambda c: (c["d"] >= 10000, c["grp"]))
+                          "timeout": 240 if big else 30, "solo": big, "leak": False, "item": it})
+    # children are per group: keep the groups in long runs; the big inputs (one child each) first, they take longest
+    cases.sort(key=lambda c: (not c["solo"], c["grp"]))
     for n, c in enumerate(cases):
         c["id"] = n
     return cases
 
 
 # ------------------------------------------------------------------------------------------------------ RUN
-def run_harness(exe, cases, inputs, fixed, wd, tag, flavour, batch=25, timeout=3000):
+def run_harness(exe, cases, inputs, fixed, wd, tag, flavour, batch=BATCH, timeout=3000):
     out = os.path.join(wd, "out-" + tag)
     data = os.path.join(wd, "data-" + tag)
     os.makedirs(out, exist_ok=True); os.makedirs(data, exist_ok=True)
@@ -161,7 +169,7 @@ def run_harness(exe, cases, inputs, fixed, wd, tag, flavour, batch=25, timeout=3
         for i, b in enumerate(inputs):
             f.write('{"i":%d,"hex":"%s"}\n' % (i, b.hex()))
     cpath = os.path.join(wd, "cases-%s.ndjson" % tag)
-    cfgline = dict(fixed, config=True, seedExpr=c03gen.SEED_EXPR, timeout=60, batch=batch, leak=True)
+    cfgline = dict(fixed, config=True, seedExpr=c03gen.SEED_EXPR, timeout=30, batch=batch, leak=False)
     vlib.write_ndjson(cpath, [cfgline] + [{k: v for k, v in c.items() if k != "item"} for c in cases])
     env = dict(os.environ, **SAN_ENV)
     try:
@@ -177,9 +185,12 @@ def run_harness(exe, cases, inputs, fixed, wd, tag, flavour, batch=25, timeout=3
                 line = line.strip()
                 if line:
                     try:
-                        events.append(json.loads(line))
+                        ev = json.loads(line)
                     except ValueError:
                         raise vlib.Infra("unreadable event in %s: %s" % (p, line[:200]))
+                    if ev.get("e") == "Reset":
+                        ev["child"] = p[:-3]
+                    events.append(ev)
     execs = vlib.split_executions(events)
     if len(execs) != len(cases):
         raise vlib.Infra("harness sweep %s recorded %d executions for %d cases" % (tag, len(execs), len(cases)))
@@ -305,7 +316,7 @@ def variant_of(it):
     """the part of the descriptor that names the variant inside its class (for accepted / refused keys)"""
     d = it["desc"]
     cls = d["cls"]
-    if cls in ("missingRequiredAttribute", "unknownXslElement", "avtUnbalanced", "unknownOutputEncoding", "wrongXslNamespaceRoot", "unknownXmlEncoding", "longName"):
+    if cls in ("missingRequiredAttribute", "unknownXslElement", "avtUnbalanced", "unknownOutputEncoding", "unknownXmlEncoding", "longName"):
         return d.get("v", "")
     if cls == "nonExpression":
         return (d.get("kind", "") + " " + d.get("v", "")).strip()
@@ -384,6 +395,21 @@ def run(res, tier, seed):
         res.notes["t_run_%s_s" % flavour] = round(time.time() - t0, 1)
         rejects, st = validate(execs, wd, "c03tv-" + flavour)
         res.notes["tv_states"] = res.notes.get("tv_states", 0) + st["tv_states"]
+        # a leak is looked for when a child ends: a child that ends with a leak runs again with a check after every execution,
+        # so that the leak is attributed to the execution that caused it
+        dirty = sorted({execs[n][0]["child"] for n, r in rejects.items() if execs[n][r["k"]].get("e") == "LeakCheck"})
+        for child in dirty[:60]:
+            idx = [n for n, ex in enumerate(execs) if ex[0]["child"] == child]
+            cs2 = [dict(cs[n], id=j, leak=True) for j, n in enumerate(idx)]
+            ex2 = run_harness(exe_, cs2, inputs, fixed, wd, "%s-leak-%s" % (flavour, child), flavour, batch=len(cs2) + 1, timeout=1500)
+            rej2, st2 = validate(ex2, wd, "c03tv-%s-leak-%s" % (flavour, child))
+            res.notes["tv_states"] += st2["tv_states"]
+            stats["children_rerun_for_leak_attribution"] += 1
+            for j, n in enumerate(idx):
+                execs[n] = ex2[j]
+                rejects.pop(n, None)
+                if j in rej2:
+                    rejects[n] = rej2[j]
         res.notes["t_tv_%s_s" % flavour] = round(time.time() - t0, 1)
         for n, (c, ex) in enumerate(zip(cs, execs)):
             it = c["item"]
